@@ -78,6 +78,12 @@ CHECKS["C08"] = dict(level="exploration",
    technique="structural fetch-tree monitor (exhaustive small DAGs) + gated-datasource schedule exploration under -race with content/arrival-order/response-equality oracles",
    design_ref="DESIGN.md §6 C08, Appendix F7")
 
+CHECKS["C07"] = dict(level="fault_enumeration",
+   text="Fault enumeration over the real ExecutionEngine (race detector on) on C01's federated configurations: for each case the fault space of the fault-free run is enumerated completely - every single subgraph request x 9 fault kinds (7 for non-entity requests), plus every pair of requests when there are <=4 - with faults addressed by (subgraph, operation text) so that arrival order does not matter. Oracles: the gateway returns (watchdog; nil = violation after the framework's isolated re-run), one valid JSON response, >=1 error when a faulted request was sent; every request sent under faults equals a fault-free request with representations a subset (no fabricated downstream request); data under faults is a null-refinement of the fault-free data; every position that became null has a failed/skipped provider at or below it (independent data never lost); every position that stays non-null was resolved by a successful request of the faulted run; all total-loss kinds on one request give identical data. Provenance is observed, not inferred: each semantic subgraph records the (type, object, field, arguments) keys it resolved.",
+   note="Trusted: C01's layout generator and semantic subgraphs, the reference executor's provenance map, the recording/fault-injecting RoundTripper. A position whose key has both a dead and a live provider is ambiguous and only checked for value equality. All nine kinds are treated as total loss.",
+   technique="exhaustive single/double fault injection at the RoundTripper with observed-provenance sandwich oracle and cross-kind metamorphic equality, under -race",
+   design_ref="DESIGN.md §6 C07, Appendix F3")
+
 NOT_YET = {
 }
 
